@@ -3190,12 +3190,20 @@ def svalV (s : PyImp.St) : Val → Option SVal
 def NsOk (proj : Project) (s : PyImp.St) (S : Site) (ns : Ns) : Prop :=
   ∀ x v, dget ns x = some v → ∃ sv, svalV s v = some sv ∧ Jpy proj S [x] sv
 
+/-- the site of a class statement -/
+def IsClassSite (proj : Project) (S : Site) : Prop :=
+  ∃ cp n bs body full, S.2 = cp ++ [n] ∧ siteBody proj (S.1, cp) = some full ∧ Stmt.classDef n bs body ∈ full
+
+theorem IsClassSite.ne {proj : Project} {S : Site} (h : IsClassSite proj S) : S.2 ≠ [] := by
+  obtain ⟨cp, n, _, _, _, h, _⟩ := h
+  rw [h]; simp
+
 structure PyInv (proj : Project) (s : PyImp.St) : Prop where
   mods : ∀ m, NsOk proj s (m, []) (nsOf s m)
   heap : ∀ (h : Nat) (co : ClassObj), s.heap[h]? = some co → NsOk proj s (co.mod, co.cp) co.ns
   alls : ∀ m l, allOf s m = some l → ∀ x ∈ l, x ∈ allNames (bodyOf proj m)
   nobases : noBases proj = true → ∀ (h : Nat) (co : ClassObj), s.heap[h]? = some co → co.bases = []
-  cls : ∀ (h : Nat) (co : ClassObj), s.heap[h]? = some co → co.cp ≠ []
+  cls : ∀ (h : Nat) (co : ClassObj), s.heap[h]? = some co → IsClassSite proj (co.mod, co.cp)
 
 /-- class objects persist -/
 def HeapExt (s s' : PyImp.St) : Prop := ∀ (h : Nat) (co : ClassObj), s.heap[h]? = some co → s'.heap[h]? = some co
@@ -3637,7 +3645,7 @@ theorem finishClass_ok {proj : Project} {m : Nat} {cp : Path} {full : List Stmt}
           have : h = s1.heap.length := by rw [← hs2] at hlen; simp at hlen; omega
           subst this
           rw [hnew] at hh; injection hh with hh; subst hh
-          simp
+          exact ⟨cp, name, bs, body, full, rfl, hb, hst⟩
       rotate_left
       · intro hn h co hh
         by_cases hlt : h < s1.heap.length
